@@ -649,7 +649,11 @@ fn run_conflict_case(c: &MergeCase, master: &ADoc, st: &mut Stats) -> Result<(),
             for a in 0..kids.len() {
                 for b in a + 1..kids.len() {
                     if kids[a].1.name == kids[b].1.name && kids[a].1.item_name().is_some() && kids[b].1.item_name().is_some() {
-                        out.push((path.clone(), kids[a].0, kids[b].0, nonsplit_all, true));
+                        // "must be rejected" is only claimed for a parent whose element children are all of this one kind
+                        // (PORTS, DATA-ELEMENTS, ARGUMENTS ...): with siblings of other kinds in between, the walk reaches the
+                        // two children through its different-kind branch, which is the recorded gap KF-C09-4
+                        let pure = kids.iter().all(|k| k.1.name == kids[a].1.name);
+                        out.push((path.clone(), kids[a].0, kids[b].0, nonsplit_all, pure));
                     } else if kids[a].1.name != kids[b].1.name && kids[a].1.name != ElementName::ShortName && kids[b].1.name != ElementName::ShortName && out.len() % 3 == 0 {
                         // children of DIFFERENT kinds: the library accepts such files (it cannot tell a split from a conflict there);
                         // only "no panic" and "the same result in both orders" are claimed (flag false)
